@@ -130,6 +130,24 @@ fn build(l: &Logical, h: u32, asyncm: bool, rng: &mut Rng) -> Result<Vec<u8>, St
         });
         return handle.join().map_err(|_| String::from("writer thread panicked"))?;
     }
+    if h == 0 && ids.len() >= 4 && ids.len() % 3 == 0 {
+        // the first half is added on this thread, the second half (and the save) by another one: nothing in memory yet was
+        // written to a stream, so every content the halves share is an in-memory duplicate across the thread boundary
+        let half = ids.len() / 2;
+        for id in &ids[..half] {
+            arch.add(*id, l.tiles[id].as_ref().clone()).map_err(e)?;
+        }
+        arch.apply_settings(l);
+        let items: Vec<(u64, Vec<u8>)> = ids[half..].iter().map(|id| (*id, l.tiles[id].as_ref().clone())).collect();
+        let handle = std::thread::spawn(move || -> Result<Vec<u8>, String> {
+            let mut arch = arch;
+            for (id, c) in items {
+                arch.add(id, c).map_err(|e| e.to_string())?;
+            }
+            arch.save().map_err(|e| e.to_string())
+        });
+        return handle.join().map_err(|_| String::from("writer thread panicked"))?;
+    }
     for id in &ids {
         arch.add(*id, l.tiles[id].as_ref().clone()).map_err(e)?;
     }
